@@ -209,7 +209,8 @@ fn control_name() -> impl Strategy<Value = String> {
 fn long_name() -> impl Strategy<Value = String> {
     (
         prop_oneof![Just(250usize), Just(253), Just(254), Just(255), Just(256), Just(257), Just(300), 240usize..270],
-        prop_oneof![Just("a"), Just("é"), Just("€"), Just("😀")],
+        // (white space as a unit: the 255-byte prefix then ends in a blank, a no-break or an ideographic space)
+        prop_oneof![3 => Just("a"), 3 => Just("é"), 3 => Just("€"), 3 => Just("😀"), 1 => Just(" "), 1 => Just("w "), 1 => Just("\u{a0}"), 1 => Just("\u{3000}")],
         0usize..4,
         prop_oneof![Just("x"), Just("é"), Just("€"), Just("😀")],
     )
